@@ -15,6 +15,7 @@ import random
 
 from harness import checklib
 
+TZS = ["UTC0", "CET-1CEST,M3.5.0,M10.5.0/3", "EST5EDT,M3.2.0,M11.1.0", "JST-9", "NZST-12NZDT,M9.5.0,M4.1.0/3", "UTC0"]
 EPOCH2000 = 10957  # days from 1970-01-01 to 2000-01-01
 
 
@@ -23,6 +24,12 @@ def run_instant(case):
 
     from harness import imgrun, product
 
+    import time as _time
+
+    # the reading process's time zone must not matter (file times are UTC instants): zones with and without daylight saving time, both
+    # hemispheres, rotate over the instants
+    os.environ["TZ"] = TZS[case["seed"] % len(TZS)]
+    _time.tzset()
     e = case["inst"]
     y, doy, ms, us = e["y"], e["doy"], e["ms"], e["us"]
     frac = f"{e['mmm']:03d}{us:03d}"
@@ -84,6 +91,9 @@ def run_instant(case):
                 out["bad"].append((f"{name.split('-last')[0].replace('attitude-rates-time', 'attitude-time')}:{how}", f"{name}: read back {got} ns, the file encodes {want} ns (difference {d} ns)", d))
     finally:
         imgrun.drop_from_fs(url, "local")
+        os.environ["TZ"] = "UTC0"
+        _time.tzset()
+    out["tz"] = TZS[case["seed"] % len(TZS)]
     return out
 
 
@@ -123,7 +133,7 @@ def body(chk):
             if key in seen:
                 continue
             seen.add(key)
-            chk.violation(f"calendar:{key}", f"instant {i['y']} day {i['doy']} ms {i['ms']} us {i['us']}: {msg}", {"instant": i})
+            chk.violation(f"calendar:{key}", f"instant {i['y']} day {i['doy']} ms {i['ms']} us {i['us']} (process TZ {res.get('tz')}): {msg}", {"instant": i})
     chk.traces(len(results))
     chk.sample({"instant": insts[len(insts) // 3], "fields_written": ["image line ydms + us", "attitude points", "platform position first point",
                                                                        "scene centre", "volume creation"], "mismatches": results[len(insts) // 3]["bad"][:2]})
